@@ -20,6 +20,7 @@ from __future__ import annotations
 import collections
 import json
 import multiprocessing as mp
+import os
 import random
 import socket
 import types
@@ -309,13 +310,37 @@ def nontrivial(sc):
 
 # ---------------------------------------------------------------------------------- stage 4: TLC on traces
 
+FLAGS = ["invalid-source", "zero-budget", "read-reduced-by-elapsed", "connect-timeout", "reused-connection", "request-level"]
+_JVM = None   # semaphore bounding the number of concurrent JVMs (set in pool workers)
+
+
+def _init_worker(sem):
+    global _JVM
+    _JVM = sem
+
+
+class _Slot:
+    def __enter__(self):
+        if _JVM is not None:
+            _JVM.acquire()
+
+    def __exit__(self, *a):
+        if _JVM is not None:
+            _JVM.release()
+        return False
+
+
 def validate_runs(runs):
-    r = tlc.run("Timeout_Trace", TRACE_CFG, workers=1, files={"traces.json": json.dumps(runs)},
-                env={"TRACE_FILE": "traces.json"}, timeout=3600, heap="2g")
+    """Batch validation by TLC.  Returns {trace number: (position, clause, [coverage flags])}; the flags are
+    TraceCovers of Timeout.tla (computed from the rules and the environment, not from the code's behaviour)."""
+    with _Slot():
+        r = tlc.run("Timeout_Trace", TRACE_CFG, workers=1, files={"traces.json": json.dumps(runs)},
+                    env={"TRACE_FILE": "traces.json"}, timeout=3600, heap="2g")
     verdicts = tlc.tagged_tuples(r.out, "VERDICT")
-    if len(verdicts) != len(runs) or sorted(v[0] for v in verdicts) != list(range(1, len(runs) + 1)):
+    if len(verdicts) != len(runs) or sorted(v[0] for v in verdicts) != list(range(1, len(runs) + 1)) \
+            or any(len(v) != 3 + len(FLAGS) for v in verdicts):
         raise tlc.MachineryError(f"trace validation produced {len(verdicts)} verdicts for {len(runs)} traces\n{r.out[-2000:]}")
-    return {v[0]: (v[1], v[2]) for v in verdicts}
+    return {v[0]: (v[1], v[2], [f for f, b in zip(FLAGS, v[3:]) if b]) for v in verdicts}
 
 
 def _facts(cfg, clause, pos):
@@ -327,11 +352,14 @@ def _facts(cfg, clause, pos):
 _PRE = '<<"SC", "'
 
 
+def _cfgkey(cfg):
+    return json.dumps(cfg, sort_keys=True)
+
+
 def _replay_chunk(lines):
     """Worker: parse emitted behaviours, replay each on the real code, validate the recorded runs."""
     scs, runs = [], []
     cls = collections.Counter()
-    keys = set()
     for ln in lines:
         body = ln[len(_PRE):-3].replace('\\\\', '\x00').replace('\\"', '"').replace('\x00', '\\')
         sc = json.loads(body)
@@ -341,25 +369,57 @@ def _replay_chunk(lines):
             cls[c] += 1
     verdicts = validate_runs(runs) if runs else {}
     bad, drift, samples = [], [], []
-    nt = nbad = 0
+    nt = nbad = ndrift = 0
+    flags = collections.Counter()
     for i, (sc, run) in enumerate(zip(scs, runs), 1):
-        pos, clause = verdicts[i]
+        pos, clause, fl = verdicts[i]
+        flags.update(fl)
         diff = differences(sc, run)
         if nontrivial(sc):
             nt += 1
         if clause != "ok":
             nbad += 1
-            if len(bad) < 12:
+            if len(bad) < 6:
                 bad.append((clause, pos, diff[:4], sc, run))
-        elif diff and len(drift) < 5:
-            drift.append((diff[:4], sc["cfg"]))
-        if len(samples) < 1 and "read-reduced-by-elapsed" in classes(sc):
+        elif diff:
+            ndrift += 1
+            if len(drift) < 3:
+                drift.append((diff[:4], sc["cfg"]))
+        if not samples and "read-reduced-by-elapsed" in fl and len(sc["reqs"]) > 1:
             samples.append({"scenario_cfg": sc["cfg"], "env": envs_of(sc), "recorded": run["reqs"], "tlc_verdict": clause})
     return {"n": len(scs), "requests": sum(len(r["reqs"]) for r in runs), "classes": dict(cls), "bad": bad, "nbad": nbad,
-            "ndrift": sum(1 for i, (sc, run) in enumerate(zip(scs, runs), 1) if verdicts[i][1] == "ok" and differences(sc, run)),
-            "drift": drift, "nontrivial": nt, "samples": samples,
-            "cfgs": len({json.dumps(sc["cfg"], sort_keys=True) for sc in scs}),
-            "cfgkeys": {hash(json.dumps(sc["cfg"], sort_keys=True)) for sc in scs}}
+            "ndrift": ndrift, "drift": drift, "nontrivial": nt, "samples": samples, "flags": dict(flags),
+            "cfgkeys": {hash(_cfgkey(sc["cfg"])) for sc in scs}}
+
+
+def _monitor_selftest(_=None):
+    """The trace monitor must reject corrupted copies of a genuine recorded run, naming the clause."""
+    import copy
+    omit = {"kind": "omit", "t": UNSET, "c": UNSET, "r": UNSET}
+    cfg = {"ps": {"kind": "obj", "t": 2000, "c": 500, "r": 10000}, "D": 7000, "sch": "http", "rs": [omit, omit]}
+    base = execute(cfg, [{"d": 300, "cmode": "ok", "smode": "keep"}, {"d": 0, "cmode": "ok", "smode": "keep"}])
+    if [x["rds"] for x in base["reqs"]] != [[1700], [2000]] or base["reqs"][1]["dial"] != NODIAL:
+        # the genuine run itself is not what the rules predict: leave the verdict to the main legs
+        return {"skipped": "base run deviates", "base": base["reqs"]}
+    muts = []
+
+    def mut(name, want, fn):
+        r = copy.deepcopy(base)
+        fn(r["reqs"])
+        muts.append((name, want, r))
+
+    mut("none", "ok", lambda q: None)
+    mut("read timeout 1 ms looser", "ReadNeverLooser", lambda q: q[0].update(rds=[1701], rwait=1701))
+    mut("connect timeout = total", "ConnectNeverLooser", lambda q: q[0].update(dial=2000, pre=[2000]))
+    mut("second request refused", "ClocksIndependent", lambda q: q[1].update(outcome="TimeoutStateError"))
+    mut("second request on the first one's clock", "ClocksIndependent", lambda q: q[1].update(rds=[950], rwait=950))
+    mut("read timeout not applied", "ReadIsMinRemaining", lambda q: q[0].update(rds=[], rwait=500))
+    mut("zero on the socket", "NeverNegativeOrZeroOnSocket", lambda q: q[0].update(rds=[0], rwait=0))
+    mut("longer wait than the timeout", "WaitsWithinTimeouts", lambda q: q[1].update(waitR=2500, tEnd=q[1]["tEnd"] + 2500))
+    verdicts = validate_runs([r for _, _, r in muts])
+    got = {name: verdicts[i][1] for i, (name, _, _) in enumerate(muts, 1)}
+    wrong = {name: (want, got[name]) for name, want, _ in muts if got[name] != want}
+    return {"wrong": wrong, "verdicts": got}
 
 
 # ---------------------------------------------------------------------------------- random leg
@@ -392,6 +452,8 @@ def random_case(rng):
     cfg = {"ps": _rand_src(rng, True, bad and rng.random() < 0.3), "D": rng.choice([NONE, 7000, 250, 1500]),
            "sch": rng.choice(["http", "https"]),
            "rs": [_rand_src(rng, True, bad) for _ in range(rng.randint(1, 3))]}
+    if rng.random() < 0.2 and len(cfg["rs"]) > 1:
+        cfg["rs"][-1] = dict(cfg["rs"][0])       # the caller's same object twice
     pool_nums = [v for v in (cfg["ps"]["t"], cfg["ps"]["c"], cfg["ps"]["r"]) if v > 0]
     envs, gaps = [], []
     for src in cfg["rs"]:
@@ -410,20 +472,16 @@ def _random_chunk(args):
     runs = [execute(cfg, envs, gaps) for cfg, envs, gaps in cases]
     verdicts = validate_runs(runs)
     bad = []
-    cls = collections.Counter()
+    flags = collections.Counter()
+    nbad = 0
     for i, ((cfg, envs, gaps), run) in enumerate(zip(cases, runs), 1):
-        pos, clause = verdicts[i]
-        for x in run["reqs"]:
-            cls["outcome:" + x["outcome"]] += 1
-            if x["sent"] and x["rwait"] == NOWAIT:
-                cls["zero-budget"] += 1
-            if x["sent"] and x["dial"] == NODIAL:
-                cls["reused-connection"] += 1
-        if run["ctor"] != "ok":
-            cls["pool-ctor-rejected"] += 1
-        if clause != "ok" and len(bad) < 12:
-            bad.append((clause, pos, cfg, envs, gaps, run))
-    return {"n": n, "requests": sum(len(r["reqs"]) for r in runs), "bad": bad, "classes": dict(cls),
+        pos, clause, fl = verdicts[i]
+        flags.update(fl)
+        if clause != "ok":
+            nbad += 1
+            if len(bad) < 6:
+                bad.append((clause, pos, cfg, envs, gaps, run))
+    return {"n": n, "requests": sum(len(r["reqs"]) for r in runs), "bad": bad, "nbad": nbad, "flags": dict(flags),
             "sample": {"cfg": cases[0][0], "env": cases[0][1], "gaps": cases[0][2], "recorded": runs[0]["reqs"]}}
 
 
@@ -444,6 +502,34 @@ def nan_inf_info():
     return out
 
 
+def tunnel_info():
+    """S5, beyond the quantifier, information only: for a CONNECT-tunnelled https pool the tunnel is set up
+    (_prepare_proxy) before the per-request clock starts, so its connect time is not taken off `total`."""
+    try:
+        import urllib3
+        from urllib3.util.timeout import _DEFAULT_TIMEOUT, Timeout
+        st = {"cost": 1.0}
+
+        def responder(peer, req):
+            if req.method == "CONNECT":
+                return Reply(b"HTTP/1.1 200 Connection established\r\n\r\n")
+            return Reply(http_response(200, b"ok"))
+
+        net = Net(responder, connect_cost=lambda cid: st["cost"])
+        with _Env(net, None):
+            pm = urllib3.ProxyManager("http://proxy.test:3128")
+            pool = pm.connection_from_url("https://h.test/")
+            r = pool.urlopen("GET", "/", timeout=Timeout(total=2), retries=False)
+            vals = [to_ms(e[2], _DEFAULT_TIMEOUT) for e in net.log if e[0] == "SETTIMEOUT"]
+            out = {"status": r.status, "total_ms": 2000, "tunnel_connect_ms": 1000, "settimeout_values": vals,
+                   "read_timeout_applied": vals[-1] if vals else None,
+                   "tunnel_time_counted_against_total": bool(vals) and vals[-1] == 1000}
+            pm.clear()
+        return out
+    except BaseException as ex:   # information only: never decides anything
+        return {"error": repr(ex)}
+
+
 # ---------------------------------------------------------------------------------- driver
 
 REQUIRED_CLASSES = {
@@ -454,19 +540,26 @@ REQUIRED_CLASSES = {
 }
 
 
-def _report_bad(rep, findings, where, clause, pos, diff, sc, run, case):
-    cfg = (sc or {}).get("cfg") or case.get("cfg")
+def _report_bad(rep, findings, where, clause, pos, diff, cfg, case):
     what = f"{where}: TLC rejects the recorded run at request {pos}: clause {clause}" + (f" ({'; '.join(diff)})" if diff else "")
-    f = known.match(findings, _facts(cfg, clause, pos)) if cfg else None
+    f = known.match(findings, _facts(cfg, clause, pos))
     if f:
         rep.known.append((f["id"], what))
     else:
         rep.violation(clause, what, case)
 
 
+def _sensitivity(dev):
+    with _Slot():
+        r = tlc.run("MC_Timeout", mc_cfg("PT", "MCDurationsTiny", dev=dev, emit=False), workers=1, heap="2g", timeout=1800,
+                    expect_fail=True)
+    return r.violated
+
+
 def run(rep):
     quick = rep.tier == "quick"
     findings = known.load("C19")
+    jobs = max(1, int(os.environ.get("VERIF_JOBS") or os.cpu_count() or 4))
     rep.rule = ("every completed behaviour of the model over the property's grid is replayed on the real pool classes "
                 "and its recorded run validated by TLC; a behaviour is non-trivial when a connect times out or overruns, "
                 "the read timeout is reduced by elapsed connect time or hits the zero budget, a connection is reused, the "
@@ -479,9 +572,12 @@ def run(rep):
              [("A", "PA", "MCDurationsEdge"), ("B", "PC", "MCDurations"), ("D", "PD", "MCDurations")])
     chunk = 4000 if quick else 6000
     nrand, per = (4000, 1000) if quick else (96000, 4000)
-    total_classes = collections.Counter()
-    emitted = replayed = 0
-    with mp.Pool(min(16, tlc.NCPU)) as pool:
+    total_classes, trace_flags = collections.Counter(), collections.Counter()
+    emitted = replayed = rejected = 0
+    vacuity = []          # raised as a machinery failure at the end unless a violation was found
+    sem = mp.Semaphore(max(1, int(os.environ.get("VERIF_JVMS") or jobs)))
+    with mp.Pool(jobs, initializer=_init_worker, initargs=(sem,)) as pool:
+        selftest = pool.apply_async(_monitor_selftest)
         # random leg first: it keeps the workers busy while TLC computes
         rjobs = [pool.apply_async(_random_chunk, ((rep.seed * 100003 + s, per),)) for s in range(nrand // per)]
         for fam, plan, dur in plans:
@@ -501,8 +597,9 @@ def run(rep):
                     buf = []
                 return True
 
-            r1 = tlc.run("MC_Timeout", mc_cfg(plan, dur), workers="auto", heap="4g", on_line=on_line, timeout=7200,
-                         expect_fail=True)
+            with sem:
+                r1 = tlc.run("MC_Timeout", mc_cfg(plan, dur), workers="auto", heap="3g", on_line=on_line, timeout=7200,
+                             expect_fail=True)
             if buf:
                 pending.append(pool.apply_async(_replay_chunk, (buf,)))
             if r1.error:
@@ -511,7 +608,7 @@ def run(rep):
             for inv in r1.violated:
                 rep.violation("ReferenceInconsistent", f"stage 1: TLC reports {inv} violated by the model (Plans={plan})",
                               {"kind": "stage1", "plan": plan, "dur": dur})
-            nc = [t for t in tlc.tagged_tuples(r1.out, "NCONFIGS")]
+            nc = tlc.tagged_tuples(r1.out, "NCONFIGS")
             if not nc:
                 raise tlc.MachineryError("no NCONFIGS line from TLC")
             nconfigs = nc[0][0]
@@ -527,31 +624,32 @@ def run(rep):
             if len(cfgkeys) != nconfigs and not r1.violated:
                 raise tlc.MachineryError(f"plan {plan}: behaviours cover {len(cfgkeys)} of {nconfigs} configurations")
             fam_classes = collections.Counter()
-            rep.extra["runs_rejected_by_tlc"] = rep.extra.get("runs_rejected_by_tlc", 0) + sum(o["nbad"] for o in outs)
             for o in outs:
                 fam_classes.update(o["classes"])
+                trace_flags.update(o["flags"])
+                rejected += o["nbad"]
                 rep.traces += o["n"]
                 rep.evaluations += o["requests"]
                 for s in o["samples"]:
-                    rep.sample(s, cap=3)
+                    rep.sample(s, cap=2)
                 for clause, pos, diff, sc, run_ in o["bad"]:
-                    _report_bad(rep, findings, f"plan {plan}", clause, pos, diff, sc, run_,
+                    _report_bad(rep, findings, f"plan {plan}", clause, pos, diff, sc["cfg"],
                                 {"kind": "scenario", "cfg": sc["cfg"], "envs": envs_of(sc), "gaps": None, "expected": sc,
                                  "recorded": run_})
                 for diff, cfg in o["drift"]:
                     rep.drift.append(f"plan {plan}: run accepted by TLC differs from the model's expectation: {'; '.join(diff)} cfg={json.dumps(cfg)}")
                 if o["ndrift"] > len(o["drift"]):
                     rep.drift.extend([f"plan {plan}: (further drift)"] * (o["ndrift"] - len(o["drift"])))
-            base = len(rep.nontrivial)
             rep.nontrivial.update((plan, i) for i in range(sum(o["nontrivial"] for o in outs)))
             missing = [c for c in REQUIRED_CLASSES.get(fam, []) if not fam_classes.get(c)]
             if missing:
                 raise tlc.MachineryError(f"plan {plan}: emission never covers {missing}")
             total_classes.update(fam_classes)
             rep.stage1[-1].update({"configurations": nconfigs, "behaviours_emitted": nlines, "behaviours_replayed": got})
-            del base
         # vacuity of the model's actions + sensitivity of the invariants (small plan)
-        rc = tlc.run("MC_Timeout", mc_cfg("PT", "MCDurationsTiny", emit=False), workers=2, heap="2g", coverage=True, timeout=1800)
+        with sem:
+            rc = tlc.run("MC_Timeout", mc_cfg("PT", "MCDurationsTiny", emit=False), workers=2, heap="2g", coverage=True,
+                         timeout=1800)
         dead = [a for a in ACTIONS if rc.coverage.get(a, (0, 0))[0] == 0]
         if dead or rc.violated:
             raise tlc.MachineryError(f"coverage run: actions never taken {dead}, violated {rc.violated}")
@@ -565,34 +663,34 @@ def run(rep):
             if not v:
                 raise tlc.MachineryError(f"stage 1 is insensitive to model deviation {SENSITIVITY[d]}: no invariant fails")
         rep.extra["model_deviations_rejected_by"] = sens
+        st = selftest.get(1800)
+        rep.extra["trace_monitor_selftest"] = st
+        if st.get("wrong"):
+            vacuity.append(f"trace monitor self-test: corrupted runs not rejected as expected {st['wrong']}")
         # random leg results
         routs = [j.get(7200) for j in rjobs]
-    rclasses = collections.Counter()
+    rflags = collections.Counter()
     for o in routs:
         rep.traces += o["n"]
         rep.evaluations += o["requests"]
-        rclasses.update(o["classes"])
+        rejected += o["nbad"]
+        rflags.update(o["flags"])
         for clause, pos, cfg, envs, gaps, run_ in o["bad"]:
-            _report_bad(rep, findings, "random run", clause, pos, None, None, run_,
+            _report_bad(rep, findings, "random run", clause, pos, None, cfg,
                         {"kind": "scenario", "cfg": cfg, "envs": envs, "gaps": gaps, "expected": None, "recorded": run_})
     if sum(o["n"] for o in routs) != nrand:
         raise tlc.MachineryError("random leg incomplete")
-    for c in ("outcome:OK", "outcome:ReadTimeoutError", "outcome:ConnectTimeoutError", "outcome:ValueError", "zero-budget",
-              "reused-connection"):
-        if not rclasses.get(c):
-            raise tlc.MachineryError(f"random leg never covers {c}")
+    for name, fl in (("grid", trace_flags), ("random", rflags)):
+        vacuity += [f"{name} traces never cover {c} (TraceCovers)" for c in FLAGS if not fl.get(c)]
+    if vacuity and not rep.violations:
+        raise tlc.MachineryError("; ".join(vacuity))
     rep.sample({"random_run": routs[0]["sample"]}, cap=4)
     rep.extra.update({"behaviours_emitted": emitted, "behaviours_replayed": replayed, "random_runs": nrand,
-                      "emitted_classes": dict(total_classes), "random_classes": dict(rclasses),
-                      "nan_inf_either": nan_inf_info(),
+                      "runs_rejected_by_tlc": rejected, "emitted_classes": dict(total_classes),
+                      "grid_trace_covers": dict(trace_flags), "random_trace_covers": dict(rflags),
+                      "nan_inf_either": nan_inf_info(), "S5_connect_tunnel_info": tunnel_info(), "jobs": jobs, "vacuity_warnings": vacuity,
                       "scope_note": "CONNECT-tunnelled pools (S5) are outside the quantifier and not judged"})
     rep.exhaustive = True
-
-
-def _sensitivity(dev):
-    r = tlc.run("MC_Timeout", mc_cfg("PT", "MCDurationsTiny", dev=dev, emit=False), workers=1, heap="2g", timeout=1800,
-                expect_fail=True)
-    return r.violated
 
 
 def replay(rep, path):
@@ -603,14 +701,14 @@ def replay(rep, path):
     rep.nontrivial.update({1, 2})
     rep.states = rep.transitions = 1
     if case.get("kind") == "stage1":
-        r = tlc.run("MC_Timeout", mc_cfg(case["plan"], case["dur"], emit=False), workers="auto", heap="4g", expect_fail=True)
+        r = tlc.run("MC_Timeout", mc_cfg(case["plan"], case["dur"], emit=False), workers="auto", heap="3g", expect_fail=True)
         for inv in r.violated:
             rep.violation("ReferenceInconsistent", f"stage 1: TLC reports {inv} violated by the model", case)
         return
     run_ = execute(case["cfg"], case["envs"], case.get("gaps"))
     rep.evaluations += len(run_["reqs"])
-    pos, clause = validate_runs([run_])[1]
+    pos, clause, _ = validate_runs([run_])[1]
     rep.traces += 1
     if clause != "ok":
         diff = differences(case["expected"], run_)[:4] if case.get("expected") else None
-        _report_bad(rep, known.load("C19"), "replay", clause, pos, diff, None, run_, dict(case, recorded=run_))
+        _report_bad(rep, known.load("C19"), "replay", clause, pos, diff, case["cfg"], dict(case, recorded=run_))
